@@ -36,16 +36,16 @@ def whole_file_faults(work, good_text):
     f = {}
     f["empty"] = b""
     f["one_byte"] = b"a"
-    f["bad_encoding"] = b"\xff\x41" + good_text.encode("latin-1")
+    f["bad_encoding"] = b"\xff\x41" + good_text.encode("latin-1", "replace")
     f["utf16_truncated"] = b"\xff\xfe" + good_text.encode("utf-16-le")[:-1]
     f["utf16_no_bom_bytes"] = good_text.encode("utf-16-le")
     f["only_cr"] = b"\r\r\r\r"
-    f["long_line"] = (b"letter a " + b"1" * 5000 + b"\n") + good_text.encode("latin-1")
-    f["missing_include"] = (good_text + "include no-such-file-anywhere.uti\n").encode("latin-1")
-    f["include_directory"] = (good_text + "include /\n").encode("latin-1")
-    f["no_final_newline"] = good_text.rstrip("\n").encode("latin-1")
+    f["long_line"] = (b"letter a " + b"1" * 5000 + b"\n") + good_text.encode("latin-1", "replace")
+    f["missing_include"] = (good_text + "include no-such-file-anywhere.uti\n").encode("latin-1", "replace")
+    f["include_directory"] = (good_text + "include /\n").encode("latin-1", "replace")
+    f["no_final_newline"] = good_text.rstrip("\n").encode("latin-1", "replace")
     f["hyphen_header_garbage"] = b"UTF-8\n" + bytes(range(1, 255)) * 3
-    f["iso_header_then_table"] = b"ISO8859-1\n" + good_text.encode("latin-1")
+    f["iso_header_then_table"] = b"ISO8859-1\n" + good_text.encode("latin-1", "replace")
     return f
 
 
